@@ -62,7 +62,7 @@ def _case(draw, stratum):
     labs = []
     for i in range(n):
         kind = draw(st.sampled_from(["plate", "trough"])) if i == 0 else draw(st.sampled_from(["plate", "plate", "trough"]))
-        regime = draw(st.sampled_from(["roomy", "tight", "tight"]))
+        regime = draw(st.sampled_from(["roomy", "tight", "tight", "large"]))
         if stratum[1] == "oversize":
             regime = "roomy"  # the labware must be able to supply / take an oversized step, otherwise the volume check refuses first
         if i == 0 and stratum[0] == "distribute":
